@@ -19,11 +19,14 @@ MODS = {"vanilla_header": (None, "vanilla_header::HeaderCrypto", "vanilla_header
 
 def floors_for(feats):
     n = sum(1 for m, (f, _, _) in MODS.items() if f is None or f in feats)
-    return {"transcript": 1, "client-roles": n, "server-operands": n, "whole-value": n, "gate": 2 * n, "accessor": n, "error-content": n, "ctor-private": 2 * n if n else 0}
+    return {"transcript": 1, "client-roles": n, "server-operands": n, "whole-value": n, "gate": 2 * n, "accessor": n, "error-content": n, "ctor-private": 2 * n if n else 0, "totality": 1}
 
 
 def check(ctx, rep):
     fb = ctx.fb
+    # "for every username, seed and session key": the proof has to come out for every one of them
+    from . import c14
+    c14.totality(ctx, rep, "totality", lambda r: "::ProofSeed::" in r or r.startswith("vanilla_header::internal::"), "the world proof (ProofSeed)")
     se = ctx.wrap.run(WSP)
     if se is None:
         rep.violation("transcript", WSP, "anchor", "function not found")
